@@ -23,6 +23,7 @@ type Obj struct {
 	Name  string
 	Init  Value // initial contents (materialised when created)
 	Ghost string // "bufio", "sha", ... for opaque library objects
+	ReadOnly bool
 }
 
 // Sel: one step of an address path inside an object.
@@ -64,6 +65,8 @@ type ArrayV struct {
 	N    *Term // number of elements (constant for Go arrays; symbolic for slice backing stores)
 	Elem types.Type
 	Vals []Value // for non-scalar element types with constant length
+	sym  map[int]Value // elements at symbolic indices (read-only tables)
+	Name string
 }
 
 type IfaceV struct {
